@@ -68,6 +68,81 @@ func templates(rng *sim.Rng) []bProgram {
 		exp = append(exp, "G done")
 		ps = append(ps, bProgram{"go-statement", sb.String(), exp})
 	}
+	// 1b. go statement, other callee shapes: method value, interface method, closure with
+	// arguments, many arguments of mixed types, no arguments; every operand is changed
+	// by the parent right after the go statement
+	{
+		seedv := rng.Range(1, 50)
+		src := fmt.Sprintf(`package main
+
+import "sync"
+
+type T struct{ id int }
+
+func (t T) M(wg *sync.WaitGroup, x int) { println("G T.M", t.id, x); wg.Done() }
+
+type P struct{ id int }
+
+func (p *P) M(wg *sync.WaitGroup, x int) { println("G P.M", p.id, x); wg.Done() }
+
+type I interface {
+	M(wg *sync.WaitGroup, x int)
+}
+
+type S struct {
+	a int32
+	b string
+	c [3]int64
+}
+
+func many(wg *sync.WaitGroup, a int8, b float64, c string, d S, e bool, f uint64, g *int) {
+	println("G many", a, b == 2.5, c, d.a, d.b, d.c[2], e, f, *g)
+	wg.Done()
+}
+
+var wg0 sync.WaitGroup
+
+func noargs() { println("G noargs"); wg0.Done() }
+
+func main() {
+	var wg sync.WaitGroup
+	wg.Add(6)
+	wg0.Add(1)
+	x := %d
+	t := T{1}
+	go t.M(&wg, x) // method value: receiver copied now
+	t.id = 99
+	x += 1000
+	p := &P{2}
+	go p.M(&wg, x)
+	p = &P{98}
+	x += 1000
+	var i I = T{3}
+	go i.M(&wg, x) // interface method: dynamic value bound now
+	i = &P{97}
+	x += 1000
+	go func(a, b int) { println("G closure", a, b); wg.Done() }(x, x+1)
+	x += 1000
+	s := S{7, "seven", [3]int64{1, 2, 3}}
+	n := 5
+	str := "str"
+	go many(&wg, int8(x%%100), 2.5, str, s, true, 1<<40, &n)
+	s.a, s.b, s.c[2] = 8, "eight", 4
+	str = "changed"
+	f := func() { println("G f1"); wg.Done() }
+	go f()
+	f = func() { println("G f2"); wg.Done() }
+	go noargs()
+	wg.Wait()
+	wg0.Wait()
+	println("G done")
+}
+`, seedv)
+		x := seedv
+		exp := []string{fmt.Sprintf("G T.M 1 %d", x), fmt.Sprintf("G P.M 2 %d", x+1000), fmt.Sprintf("G T.M 3 %d", x+2000),
+			fmt.Sprintf("G closure %d %d", x+3000, x+3001), fmt.Sprintf("G many %d true str 7 seven 3 true 1099511627776 5", (x+4000)%100), "G f1", "G noargs", "G done"}
+		ps = append(ps, bProgram{"go-statement-shapes", src, exp})
+	}
 	// 2. Mutex-protected counter + WaitGroup
 	ps = append(ps, bProgram{"mutex-counter", fmt.Sprintf(`package main
 
